@@ -73,14 +73,14 @@ func genC07(t *rapid.T) C07Sc {
 		seen[s.String()] = true
 		sc.Dests = append(sc.Dests, s)
 	}
-	nq := rapid.IntRange(1, 10).Draw(t, "nqueries")
+	nq := rapid.IntRange(1, deep(t, 10)).Draw(t, "nqueries")
 	for i := 0; i < nq; i++ {
 		sc.Qs = append(sc.Qs, C07Q{Dest: rapid.IntRange(0, len(sc.Dests)-1).Draw(t, "q.dest"),
 			API:  rapid.SampledFrom([]string{"query", "query", "query", "ping", "findnode", "getpeers", "get"}).Draw(t, "q.api"),
 			Held: rapid.IntRange(0, 4).Draw(t, "q.held") == 0})
 	}
 	started := 0
-	n := rapid.IntRange(nq, nq+50).Draw(t, "nevents")
+	n := rapid.IntRange(nq, nq+deep(t, 50)).Draw(t, "nevents")
 	for i := 0; i < n; i++ {
 		remainingStarts := nq - started
 		roll := rapid.IntRange(0, 9).Draw(t, "ev.kind")
